@@ -116,6 +116,10 @@ pub fn current_kernel_version() -> c_int {
 /// if the time is before `UNIX_EPOCH`
 #[must_use]
 pub fn now() -> u64 {
+    #[cfg(feature = "verif")]
+    if let Some(virtual_now) = crate::verif::virtual_clock() {
+        return virtual_now;
+    }
     u64::try_from(
         SystemTime::now()
             .duration_since(UNIX_EPOCH)
